@@ -86,7 +86,7 @@ def run(ck):
     ck.assume("the estimate may be rounded either way: any integer within one position unit of the exact value is accepted")
     tlc.mc(ck, "dev/TravelCalc_MC", "dev/TravelCalc_MC" if ck.tier == "quick" else "dev/TravelCalc_MC_thorough",
            require_actions=False, timeout=1500)
-    n = 1000 if ck.tier == "quick" else 30000
+    n = 1000 if ck.tier == "quick" else 10000
     seeds = [ck.seed * 7919 + i for i in range(n)]
     traces = [run_hist(s, 25) for s in seeds]
     res = tlc.batch(ck, "dev/TravelCalc_Trace", traces)
